@@ -42,6 +42,16 @@ def scenarios(tier):
             out.append({"name": "store_metadata(%s) %s || retrieve_metadata" % (doc, "new" if init == "empty" else "overwrite"),
                         "init": init, "pids": ("p1",), "formats": (DEFAULT_NS,), "observer": True,
                         "threads": {"T1": [("store_meta", "p1", None, doc)], "T2": [("retrieve_meta", "p1", None)]}})
+    # two writers: same pid, different formats (different document locks) and the same document
+    out.append({"name": "store_metadata(v2) || store_metadata(f2,v1) same pid", "init": "empty", "pids": ("p1",),
+                "formats": (DEFAULT_NS, "f2"), "observer": True,
+                "threads": {"T1": [("store_meta", "p1", None, "v2")], "T2": [("store_meta", "p1", "f2", "v1")]}})
+    out.append({"name": "store_metadata(v2) || store_metadata(v1) same document", "init": "meta", "pids": ("p1",),
+                "formats": (DEFAULT_NS,), "observer": True,
+                "threads": {"T1": [("store_meta", "p1", None, "v2")], "T2": [("store_meta", "p1", None, "v1")]}})
+    if tier == "thorough":
+        out.append({"name": "store(p1,L) || store(p2,L) same new content", "init": "empty", "pids": ("p1", "p2"),
+                    "observer": True, "threads": {"T1": [("store", "p1", "L", None)], "T2": [("store", "p2", "L", None)]}})
     return out
 
 
